@@ -44,14 +44,18 @@ def blocks(tier, seed):
     add_cart((3, 4), npre=1)
     add_cart((4, 3), npre=1)
     add_cart((3, 4), dx=[1.6, 0.5], origin=[-3.7, 2.25], npre=1)
-    add_cart((4, 4), npre=4)
+    if tier == "thorough":
+        add_cart((4, 4), npre=4)
+    else:  # quick: the doubly periodic mask only (all 65536 images)
+        for pre in itertools.product((0, 1), repeat=4):
+            out.append({"grid": cart((4, 4), (True, True)), "prefix": list(pre), "via_field": False})
     add_cart((2, 2, 3), npre=1)
     add_cart((1, 5))
     add_cart((5, 1))
     add_cart((2, 5), npre=0)
     for shape in [(3, 4), (3, 5), (2, 6)]:
         for pz in (False, True):
-            for pre in itertools.product((0, 1), repeat=1):
+            for pre in itertools.product((0, 1), repeat=3):
                 out.append({"grid": {"kind": "cyl", "shape": list(shape), "R": 3.0 if shape[0] == 3 else 2.4, "z": [-1.0, -1.0 + 0.8 * shape[1]], "periodic_z": pz}, "prefix": list(pre), "via_field": False})
     if tier == "thorough":
         add_cart((4, 5), npre=5)
